@@ -32,7 +32,8 @@ Scale3(a, k) == << NMul(a[1], k), NMul(a[2], k), NMul(a[3], k) >>
 \* state and transitions
 Fr(n, f, l, r, t, b, o) == [n |-> n, f |-> f, l |-> l, r |-> r, t |-> t, b |-> b, o |-> o]
 NonDegenerate(F) == ~NEq(F.n, F.f) /\ ~NEq(F.l, F.r) /\ ~NEq(F.t, F.b)
-WellFormed(F) == NSgn(F.n) > 0 /\ NLt(F.n, F.f) /\ NLt(F.l, F.r) /\ NLt(F.b, F.t)
+\* a perspective frustum needs its near plane in front of the eye; an orthographic volume may start anywhere
+WellFormed(F) == (F.o \/ NSgn(F.n) > 0) /\ NLt(F.n, F.f) /\ NLt(F.l, F.r) /\ NLt(F.b, F.t)
 Dx(F) == NSub(F.r, F.l)
 Dy(F) == NSub(F.t, F.b)
 Dz(F) == NSub(F.f, F.n)
